@@ -24,13 +24,17 @@ fn one_round(backend: &str, i: u64, rng: &mut Rng, out: &mut Outcome, dir: &std:
     let seed = rng.next();
     let versions = rng.range(10, 40) as u64;
     let snapshotters = rng.range(1, 3);
-    let (rep, cut) = match backend {
+    let claim_threads = *rng.pick(&[2usize, 3, 4, 6, 8]);
+    let claim_rounds = rng.range(40, 120);
+    let (rep, cut, claims) = match backend {
         "memory" => {
             let s = MdkMemoryStorage::default();
             let r = run_stress(&s, &u, &cfg, seed);
             let s2 = MdkMemoryStorage::default();
             let c = run_snapshot_cut(&s2, &u, versions, snapshotters, seed);
-            (r, c)
+            let s3 = MdkMemoryStorage::default();
+            let k = run_claims(&s3, &u, claim_threads, claim_rounds, seed);
+            (r, c, k)
         }
         _ => {
             let sub = dir.join(format!("t{}", i % 32));
@@ -41,16 +45,21 @@ fn one_round(backend: &str, i: u64, rng: &mut Rng, out: &mut Outcome, dir: &std:
             let r = run_stress(&s, &u, &cfg, seed);
             let s2 = MdkSqliteStorage::new_unencrypted(&p2).expect("open");
             let c = run_snapshot_cut(&s2, &u, versions, snapshotters, seed);
+            let p3 = sub.join(format!("c19-{i}-claims.db"));
+            let s3 = MdkSqliteStorage::new_unencrypted(&p3).expect("open");
+            let k = run_claims(&s3, &u, claim_threads, claim_rounds.min(60), seed);
             drop(s);
             drop(s2);
-            for p in [p1, p2] {
+            drop(s3);
+            for p in [p1, p2, p3] {
                 for suf in ["", "-journal", "-wal", "-shm"] {
                     let _ = std::fs::remove_file(format!("{}{}", p.display(), suf));
                 }
             }
-            (r, c)
+            (r, c, k)
         }
     };
+    out.add("claim_rounds_concurrent_save_group", claims.histories_ops);
     out.evaluations += 1;
     out.count(&format!("histories_{backend}"));
     out.add("history_operations", rep.histories_ops);
@@ -65,7 +74,7 @@ fn one_round(backend: &str, i: u64, rng: &mut Rng, out: &mut Outcome, dir: &std:
     if rep.overlapping_pairs > 0 || cut.overlapping_pairs > 0 {
         out.distinct.insert(crate::rng::fnv(format!("{backend}-{i}-{}-{}", rep.histories_ops, rep.overlapping_pairs).as_bytes()));
     }
-    for (clause, detail) in rep.violations.iter().chain(cut.violations.iter()) {
+    for (clause, detail) in rep.violations.iter().chain(cut.violations.iter()).chain(claims.violations.iter()) {
         if print {
             println!("STRESS-VIOLATION {backend}|{clause} :: {detail}");
         }
